@@ -544,6 +544,13 @@ func (x *MessageSubsidy) Check() lib.ErrorI {
 	if len(x.Opcode) > 100 {
 		return ErrInvalidOpcode()
 	}
+	// a subsidy funds the reward pool of a committee (or the DAO pool): any other pool id would let the sender
+	// add tokens to the escrow, holding or liquidity pool derived from a chain id, outside their accounting
+	if x.ChainId != lib.DAOPoolID {
+		if err := checkChainId(x.ChainId); err != nil {
+			return err
+		}
+	}
 	return nil
 }
 
